@@ -593,62 +593,21 @@ theorem resEqvS_refl (r : Except Err SVal) : resEqvS r r := by
   | ok v => exact SVal.eqv_refl v
   | error e => rfl
 
-/-- Two Python scalars with one `repr` become the same tensor element under every dtype. -/
-theorem reprEqS_cast_same (x y : Scalar) (dt : DType) (hx : x.WF) (hy : y.WF) (h : reprEqS x y = true) :
-    resEqvS (npCast x dt) (npCast y dt) := by
-  cases x with
-  | b v =>
-    cases y <;> simp only [reprEqS, beq_iff_eq] at h
-    · subst h; exact resEqvS_refl _
-    · cases h
-    · cases h
-  | i v =>
-    cases y <;> simp only [reprEqS, beq_iff_eq] at h
-    · cases h
-    · subst h; exact resEqvS_refl _
-    · cases h
-  | f s n d =>
-    cases y with
-    | b w => simp [reprEqS] at h
-    | i w => simp [reprEqS] at h
-    | f s' n' d' =>
-      simp only [reprEqS, Bool.and_eq_true, beq_iff_eq] at h
-      obtain ⟨hs, hc⟩ := h
-      subst hs
-      exact npCastF_eqv s n d n' d' hx hy hc dt
+/-- `repr` equality of scalars is equality of their (canonical) encodings. -/
+theorem reprEqS_iff_eq (x y : Scalar) : reprEqS x y = true ↔ x = y := by
+  cases x <;> cases y <;> simp [reprEqS]
+  exact ⟨fun h => ⟨h.1.1, h.1.2, h.2⟩, fun h => ⟨⟨h.1, h.2.1⟩, h.2.2⟩⟩
 
-theorem reprEqList_cast_same (dt : DType) : ∀ (xs ys : List Scalar),
-    (∀ e ∈ xs, e.WF) → (∀ e ∈ ys, e.WF) → reprEqList xs ys = true →
-    valsEqv (mapE (fun e => npCast e dt) xs) (mapE (fun e => npCast e dt) ys)
-  | [], [], _, _, _ => True.intro
-  | [], _ :: _, _, _, h => by simp [reprEqList] at h
-  | _ :: _, [], _, _, h => by simp [reprEqList] at h
-  | x :: xs, y :: ys, hx, hy, h => by
-    simp only [reprEqList, Bool.and_eq_true] at h
-    have h0 := reprEqS_cast_same x y dt (hx x List.mem_cons_self) (hy y List.mem_cons_self) h.1
-    have ih := reprEqList_cast_same dt xs ys (fun e he => hx e (List.mem_cons_of_mem _ he))
-      (fun e he => hy e (List.mem_cons_of_mem _ he)) h.2
-    simp only [mapE]
-    cases hcx : npCast x dt <;> cases hcy : npCast y dt <;> rw [hcx, hcy] at h0 <;>
-      simp only [resEqvS] at h0
-    · trivial
-    · cases hmx : mapE (fun e => npCast e dt) xs <;> cases hmy : mapE (fun e => npCast e dt) ys <;>
-        rw [hmx, hmy] at ih <;> simp only [valsEqv] at ih ⊢
-      exact ⟨h0, ih⟩
+theorem reprEqList_iff_eq : ∀ (xs ys : List Scalar), reprEqList xs ys = true ↔ xs = ys
+  | [], [] => by simp [reprEqList]
+  | [], _ :: _ => by simp [reprEqList]
+  | _ :: _, [] => by simp [reprEqList]
+  | x :: xs, y :: ys => by
+    simp only [reprEqList, Bool.and_eq_true, reprEqS_iff_eq, reprEqList_iff_eq xs ys, List.cons.injEq]
 
-theorem reprEq_cast_same (k l : Lit) (dt : DType) (hk : k.WF) (hl : l.WF) (h : reprEq k l = true) :
-    valsEqv (mapE (fun e => npCast e dt) k.elems) (mapE (fun e => npCast e dt) l.elems) := by
-  cases k with
-  | s x =>
-    cases l with
-    | s y =>
-      apply reprEqList_cast_same dt [x] [y] hk hl
-      simpa [reprEqList, reprEq] using h
-    | l y ys => simp [reprEq] at h
-  | l x xs =>
-    cases l with
-    | s y => simp [reprEq] at h
-    | l y ys => exact reprEqList_cast_same dt (x :: xs) (y :: ys) hk hl (by simpa [reprEq] using h)
+/-- Key equality of the cache since fix F8 is equality of literals. -/
+theorem reprEq_iff_eq (k l : Lit) : reprEq k l = true ↔ k = l := by
+  cases k <;> cases l <;> simp [reprEq, reprEqS_iff_eq, reprEqList_iff_eq]
 
 theorem reprEqS_refl (x : Scalar) : reprEqS x x = true := by
   cases x <;> simp [reprEqS]
@@ -657,9 +616,9 @@ theorem reprEq_refl_s (x : Scalar) : reprEq (.s x) (.s x) = true := reprEqS_refl
 
 theorem pyEq_refl_s (x : Scalar) : pyEq (.s x) (.s x) = true := pyEqS_refl x
 
-/-- Every cache entry holds the tensor of its own key (denominators positive). -/
+/-- Every cache entry holds the tensor of its own key, in the dtype of its key. -/
 def CacheOk (c : Cache) : Prop :=
-  ∀ e ∈ c, mapE (fun s => npCast s e.dtype) e.key.elems = .ok e.vals ∧ e.dtype = e.keyDt.getD .bool ∧ e.key.WF
+  ∀ e ∈ c, mapE (fun s => npCast s e.dtype) e.key.elems = .ok e.vals ∧ e.dtype = e.keyDt.getD .bool
 
 theorem namesOk_promoteBy (eq : Lit → Lit → Bool) (hrefl : ∀ x, eq (.s x) (.s x) = true)
     (c : Cache) (hn : NamesOk c) (l : Lit) (dt : Option DType) (c' : Cache) (e : Entry)
@@ -744,5 +703,301 @@ theorem wtsa_one_tensor {κ : Type} [DecidableEq κ] (s1 s2 : Slot κ) (d : DTyp
   · cases a <;> cases s2 <;> simp_all [boundTo]
   · cases a <;> cases s2 <;> simp_all [boundTo]
   · cases a <;> cases s2 <;> simp_all [boundTo]
+
+/-! ### `_cast_inputs` through the cache, histories -/
+
+theorem keyDType_none_default (l : Lit) : (keyDType l none).getD .bool = builderDefault l := by
+  unfold keyDType builderDefault
+  cases l.head.kind <;> rfl
+
+theorem promote_refused (c : Cache) (l : Lit) (dt : Option DType) (h : builderAccepts l = false) :
+    promote c l dt = .error .refused := by
+  simp [promote, promoteBy, h]
+
+theorem promote_error (c : Cache) (hc : CacheOk c) (l : Lit) (dt : Option DType) (ha : builderAccepts l = true)
+    (e : Err) (hm : mapE (fun s => npCast s ((keyDType l dt).getD .bool)) l.elems = .error e) :
+    promote c l dt = .error e := by
+  unfold promote promoteBy
+  simp only [ha, Bool.not_true, Bool.false_eq_true, if_false]
+  cases hf : c.findBy reprEq l (keyDType l dt) with
+  | some e0 =>
+    unfold Cache.findBy at hf
+    have hmem := List.mem_of_find?_eq_some hf
+    have hp := List.find?_some hf
+    simp only [Bool.and_eq_true, beq_iff_eq, reprEq_iff_eq] at hp
+    obtain ⟨h1, h2⟩ := hc e0 hmem
+    rw [hp.1, h2, hp.2, hm] at h1
+    cases h1
+  | none => simp [hm]
+
+theorem promote_ok (c : Cache) (hc : CacheOk c) (l : Lit) (dt : Option DType) (ha : builderAccepts l = true)
+    (vs : List SVal) (hm : mapE (fun s => npCast s ((keyDType l dt).getD .bool)) l.elems = .ok vs) :
+    ∃ c' e, promote c l dt = .ok (c', e) ∧ e.vals = vs ∧ e.dtype = (keyDType l dt).getD .bool ∧ CacheOk c' := by
+  unfold promote promoteBy
+  simp only [ha, Bool.not_true, Bool.false_eq_true, if_false]
+  cases hf : c.findBy reprEq l (keyDType l dt) with
+  | some e0 =>
+    unfold Cache.findBy at hf
+    have hmem := List.mem_of_find?_eq_some hf
+    have hp := List.find?_some hf
+    simp only [Bool.and_eq_true, beq_iff_eq, reprEq_iff_eq] at hp
+    obtain ⟨h1, h2⟩ := hc e0 hmem
+    have hd : e0.dtype = (keyDType l dt).getD .bool := by rw [h2, hp.2]
+    rw [hp.1, hd, hm] at h1
+    refine ⟨c, e0, rfl, ?_, hd, hc⟩
+    cases h1; rfl
+  | none =>
+    simp only [hm]
+    refine ⟨_, _, rfl, rfl, rfl, ?_⟩
+    intro e he
+    rcases List.mem_append.mp he with he | he
+    · exact hc e he
+    · simp only [List.mem_singleton] at he
+      subst he
+      exact ⟨hm, rfl⟩
+
+
+/-- Cache-free result of promoting `l` with requested dtype `dt`, as an `Out`. -/
+theorem builderConst_eq (l : Lit) (dt : Option DType) :
+    builderConst l dt = if builderAccepts l then
+      (match mapE (fun s => npCast s ((keyDType l dt).getD .bool)) l.elems with
+       | .error e => .error e
+       | .ok vs => .ok (.const ((keyDType l dt).getD .bool) l.isList vs)) else .error .refused := by
+  unfold builderConst npConst
+  cases dt with
+  | none => rw [keyDType_none_default]; rfl
+  | some d => rfl
+
+section
+variable {κ : Type} [DecidableEq κ]
+
+theorem emitBuilderC_spec (sa : List (Slot κ × Arg)) (c : Cache) (hc : CacheOk c) (p : Slot κ × Arg) :
+    (match emitBuilderC sa c p with
+      | .error e => Except.error e
+      | .ok r => Except.ok r.2.out) = emitBuilder sa p ∧
+    ∀ c' o, emitBuilderC sa c p = .ok (c', o) → CacheOk c' := by
+  obtain ⟨s, a⟩ := p
+  cases a with
+  | none => exact ⟨rfl, fun c' o h => by cases h; exact hc⟩
+  | tensor dt k => exact ⟨rfl, fun c' o h => by cases h; exact hc⟩
+  | lit l =>
+    simp only [emitBuilderC, emitBuilder]
+    -- the three promotion shapes share one argument
+    have key : ∀ (dt : Option DType),
+        (∀ e, promote c l dt = .error e → builderConst l dt = .error e) ∧
+        (∀ c' e, promote c l dt = .ok (c', e) →
+          builderConst l dt = .ok (.const e.dtype l.isList e.vals) ∧ CacheOk c') := by
+      intro dt
+      rw [builderConst_eq]
+      cases ha : builderAccepts l with
+      | false =>
+        rw [promote_refused c l dt ha]
+        exact ⟨fun e h => by cases h; rfl, fun c' e h => by cases h⟩
+      | true =>
+        simp only [if_true]
+        cases hm : mapE (fun s => npCast s ((keyDType l dt).getD .bool)) l.elems with
+        | error e0 =>
+          rw [promote_error c hc l dt ha e0 hm]
+          exact ⟨fun e h => by cases h; rfl, fun c' e h => by cases h⟩
+        | ok vs =>
+          obtain ⟨c1, e1, hp, hv, hd, hok⟩ := promote_ok c hc l dt ha vs hm
+          rw [hp]
+          refine ⟨fun e h => (by cases h), fun c' e h => ?_⟩
+          simp only [Except.ok.injEq, Prod.mk.injEq] at h
+          obtain ⟨rfl, rfl⟩ := h
+          exact ⟨(by rw [hv, hd]), hok⟩
+    cases ht : targetFirst sa s with
+    | none =>
+      simp only []
+      obtain ⟨ke, ko⟩ := key none
+      cases hp : promote c l none with
+      | error e => exact ⟨(ke e hp).symm, fun c' o h => by cases h⟩
+      | ok r =>
+        obtain ⟨c1, e1⟩ := r
+        obtain ⟨hb, hok⟩ := ko c1 e1 hp
+        exact ⟨hb.symm, fun c' o h => by cases h; exact hok⟩
+    | some r =>
+      obtain ⟨dt, k⟩ := r
+      cases k with
+      | true =>
+        simp only []
+        obtain ⟨ke, ko⟩ := key (some dt)
+        cases hp : promote c l (some dt) with
+        | error e => exact ⟨(ke e hp).symm, fun c' o h => by cases h⟩
+        | ok r =>
+          obtain ⟨c1, e1⟩ := r
+          obtain ⟨hb, hok⟩ := ko c1 e1 hp
+          exact ⟨hb.symm, fun c' o h => by cases h; exact hok⟩
+      | false =>
+        simp only [builderCastLike]
+        obtain ⟨ke, ko⟩ := key none
+        cases hp : promote c l none with
+        | error e => rw [ke e hp]; exact ⟨rfl, fun c' o h => by cases h⟩
+        | ok r =>
+          obtain ⟨c1, e1⟩ := r
+          obtain ⟨hb, hok⟩ := ko c1 e1 hp
+          rw [hb]
+          exact ⟨rfl, fun c' o h => by cases h; exact hok⟩
+
+theorem mapBuilderC_spec (sa : List (Slot κ × Arg)) : ∀ (ps : List (Slot κ × Arg)) (c : Cache), CacheOk c →
+    outsOf (mapBuilderC sa c ps).2 = mapE (emitBuilder sa) ps ∧ CacheOk (mapBuilderC sa c ps).1
+  | [], c, hc => ⟨rfl, hc⟩
+  | p :: ps, c, hc => by
+    obtain ⟨h1, h2⟩ := emitBuilderC_spec sa c hc p
+    simp only [mapBuilderC, mapE]
+    cases he : emitBuilderC sa c p with
+    | error e =>
+      rw [he] at h1
+      simp only [] at h1
+      rw [← h1]
+      exact ⟨rfl, hc⟩
+    | ok r =>
+      obtain ⟨c1, o⟩ := r
+      rw [he] at h1
+      simp only [] at h1
+      rw [← h1]
+      obtain ⟨ih1, ih2⟩ := mapBuilderC_spec sa ps c1 (h2 c1 o he)
+      simp only []
+      cases hm : mapBuilderC sa c1 ps with
+      | mk c2 r2 =>
+        rw [hm] at ih1 ih2
+        cases r2 with
+        | error e => simp only [outsOf] at ih1 ⊢; rw [← ih1]; exact ⟨rfl, ih2⟩
+        | ok os => simp only [outsOf] at ih1 ⊢; rw [← ih1]; exact ⟨rfl, ih2⟩
+
+theorem castBuilderC_spec (c : Cache) (hc : CacheOk c) (fs : List (Formal κ)) (args : List Arg) :
+    outsOf (castBuilderC c fs args).2 = castBuilder fs args ∧ CacheOk (castBuilderC c fs args).1 := by
+  unfold castBuilderC castBuilder
+  cases assign fs args with
+  | error e => exact ⟨rfl, hc⟩
+  | ok sa => exact mapBuilderC_spec sa sa c hc
+
+theorem runCalls_spec : ∀ (calls : List (List (Formal κ) × List Arg)) (c : Cache), CacheOk c →
+    (runCalls c calls).1.map outsOf = calls.map (fun q => castBuilder q.1 q.2) ∧ CacheOk (runCalls c calls).2
+  | [], c, hc => ⟨rfl, hc⟩
+  | (fs, args) :: rest, c, hc => by
+    obtain ⟨h1, h2⟩ := castBuilderC_spec c hc fs args
+    obtain ⟨ih1, ih2⟩ := runCalls_spec rest (castBuilderC c fs args).1 h2
+    simp only [runCalls, List.map]
+    exact ⟨(by rw [h1, ih1]), ih2⟩
+
+end
+
+
+/-! ### dtype-level agreement without representability -/
+
+theorem npCast_error (e : Scalar) (dt : DType) (err : Err) (h : npCast e dt = .error err) : err = .overflow := by
+  cases e <;> cases hc : dt.cls <;> simp only [npCast, hc] at h <;> (try cases h) <;>
+    (split at h <;> first | (cases h; rfl) | cases h | (injection h with h; exact h.symm))
+
+theorem mapE_npCast_error (dt : DType) : ∀ (es : List Scalar) (err : Err),
+    mapE (fun e => npCast e dt) es = .error err → err = .overflow
+  | [], err, h => by cases h
+  | e :: es, err, h => by
+    simp only [mapE] at h
+    cases hc : npCast e dt with
+    | error e0 =>
+      rw [hc] at h
+      cases h
+      exact npCast_error e dt _ hc
+    | ok v =>
+      rw [hc] at h
+      cases hm : mapE (fun e => npCast e dt) es with
+      | error e1 => rw [hm] at h; cases h; exact mapE_npCast_error dt es _ hm
+      | ok vs => rw [hm] at h; cases h
+
+/-- A front-end result for one operand: it raised OverflowError, or it has this dtype. -/
+def OvOrDt (r : Except Err Out) (d : Option DType) : Prop :=
+  r = .error .overflow ∨ ∃ o, r = .ok o ∧ o.dtype? = d
+
+theorem npConst_dt (l : Lit) (dt : DType) : OvOrDt (npConst l dt) (some dt) := by
+  unfold npConst
+  cases hm : mapE (fun e => npCast e dt) l.elems with
+  | error e => left; rw [mapE_npCast_error dt _ e hm]
+  | ok vs => right; exact ⟨_, rfl, rfl⟩
+
+theorem staticConst_dt (l : Lit) (hh : l.homogeneous = true) (t : Option DType) :
+    OvOrDt (staticConst l t) (some (t.getD (pyDefault l))) := by
+  unfold staticConst
+  simp only [irDefault_of_hom l hh]
+  cases hm : mapE (fun e => npCast e (pyDefault l)) l.elems with
+  | error e => left; rw [mapE_npCast_error _ _ e hm]
+  | ok vs => right; cases t <;> exact ⟨_, rfl, rfl⟩
+
+theorem builderConst_dt (l : Lit) (hh : l.homogeneous = true) (t : Option DType) :
+    OvOrDt (builderConst l t) (some (t.getD (pyDefault l))) := by
+  unfold builderConst
+  simp only [accepts_of_hom l hh, if_true, builderDefault, pyDefault]
+  exact npConst_dt l _
+
+theorem builderCastLike_dt (l : Lit) (hh : l.homogeneous = true) (dt : DType) :
+    OvOrDt (builderCastLike l dt) (some dt) := by
+  unfold builderCastLike builderConst npConst
+  simp only [accepts_of_hom l hh, if_true]
+  cases hm : mapE (fun e => npCast e ((none : Option DType).getD (builderDefault l))) l.elems with
+  | error e => left; rw [mapE_npCast_error _ _ e hm]
+  | ok vs => right; exact ⟨_, rfl, rfl⟩
+
+theorem mapE_dt {α : Type} (f : α → Except Err Out) (g : α → Out) : ∀ (l : List α),
+    (∀ x ∈ l, OvOrDt (f x) (g x).dtype?) →
+    mapE f l = .error .overflow ∨ ∃ os, mapE f l = .ok os ∧ os.map Out.dtype? = (l.map g).map Out.dtype?
+  | [], _ => Or.inr ⟨[], rfl, rfl⟩
+  | x :: xs, h => by
+    simp only [mapE]
+    rcases h x List.mem_cons_self with hx | ⟨o, ho, hd⟩
+    · left; rw [hx]
+    · rw [ho]
+      rcases mapE_dt f g xs (fun y hy => h y (List.mem_cons_of_mem _ hy)) with hr | ⟨os, hos, hds⟩
+      · left; rw [hr]
+      · right; rw [hos]; exact ⟨o :: os, rfl, by simp [hd, hds]⟩
+
+section
+variable {κ : Type} [DecidableEq κ]
+
+theorem assignFrom_args (fs : List (Formal κ)) : ∀ (args : List Arg) (i : Nat) (sa : List (Slot κ × Arg)),
+    assignFrom fs i args = .ok sa → sa.map (·.2) = args
+  | [], _, sa, h => by simp only [assignFrom, Except.ok.injEq] at h; subst h; rfl
+  | a :: as, i, sa, h => by
+    simp only [assignFrom] at h
+    cases hs : slotAt fs i with
+    | error e => rw [hs] at h; cases h
+    | ok s =>
+      rw [hs] at h
+      cases hr : assignFrom fs (i + 1) as with
+      | error e => rw [hr] at h; cases h
+      | ok rest =>
+        rw [hr] at h
+        simp only [Except.ok.injEq] at h
+        subst h
+        simp [assignFrom_args fs as (i + 1) rest hr]
+
+theorem emit_dt (sa : List (Slot κ × Arg)) (hwt : WTsa sa) (p : Slot κ × Arg)
+    (hh : ∀ l, p.2 = .lit l → l.homogeneous = true) :
+    OvOrDt (emitStatic sa p) (emitExpected sa p).dtype? ∧ OvOrDt (emitDynamic sa p) (emitExpected sa p).dtype? ∧
+    OvOrDt (emitBuilder sa p) (emitExpected sa p).dtype? := by
+  obtain ⟨s, a⟩ := p
+  cases a with
+  | none => exact ⟨Or.inr ⟨_, rfl, rfl⟩, Or.inr ⟨_, rfl, rfl⟩, Or.inr ⟨_, rfl, rfl⟩⟩
+  | tensor dt k => exact ⟨Or.inr ⟨_, rfl, rfl⟩, Or.inr ⟨_, rfl, rfl⟩, Or.inr ⟨_, rfl, rfl⟩⟩
+  | lit l =>
+    have hl := hh l rfl
+    have ht := target_first_last sa hwt s
+    simp only [emitStatic, emitDynamic, emitBuilder, emitExpected, ruleDType, Out.dtype?]
+    refine ⟨?_, ?_, ?_⟩
+    · rw [ht]; exact staticConst_dt l hl _
+    · rw [ht]
+      cases hl2 : targetLast sa s with
+      | none => simpa [dynDefault, pyDefault] using npConst_dt l (pyDefault l)
+      | some r => obtain ⟨dt, k⟩ := r; simpa using npConst_dt l dt
+    · cases hf : targetFirst sa s with
+      | none => simpa using builderConst_dt l hl none
+      | some r =>
+        obtain ⟨dt, k⟩ := r
+        cases k with
+        | true => simpa using builderConst_dt l hl (some dt)
+        | false => simpa using builderCastLike_dt l hl dt
+
+end
+
 
 end OV.Autocast
